@@ -106,6 +106,23 @@ def build(ctx):
             return be.Verdict(be.REFUTED, "STRUCT", witness={}, detail="the function does not return the integral itself")
         return with_models(be.Verdict(be.PROVED, "STRUCT", detail="returns the integral from pressure_standard to pressure"), o)
 
+    def quad_default_reference():
+        o = one_path(ctx, HU, [T, p, Tpc, Ppc, g])
+        integ = o.heap["ghost"].get("integrals", [])
+        if len(integ) != 1:
+            return be.Verdict(be.REFUTED, "STRUCT", witness={}, detail=f"{len(integ)} quadrature calls")
+        a = integ[0]["a"]
+        if not (tm.is_const(a) and tm.cval(a) == tm.cval(tm.rconst("14.7"))):
+            return be.Verdict(be.REFUTED, "STRUCT", witness={}, detail=f"with the reference pressure omitted the integral starts at {a}, not at the library's standard pressure 14.7 psia")
+        return with_models(be.Verdict(be.PROVED, "STRUCT", detail="default reference pressure 14.7 psia"), o)
+
+    def quad_default_replay(w):
+        f = real(HU)
+        a, b = f(200.0, 14.7, -72.0, 650.0, 0.7), f(200.0, 14.7, -72.0, 650.0, 0.7, 14.7)
+        return {"reproduced": not (a == 0 and b == 0), "input": {"T": 200.0, "p": 14.7, "Tpc": -72.0, "Ppc": 650.0, "g": 0.7}, "observed": [float(a), float(b)], "required": [0.0, 0.0]}
+
+    obs.append(Obligation("quad.default_reference", "pseudopressure_Hussainy with pressure_standard omitted integrates from 14.7 psia (zero at the library's standard pressure)", quad_default_reference, [HU], "STRUCT", quad_default_replay))
+
     obs.append(Obligation("quad.limits", "pseudopressure_Hussainy returns the integral from pressure_standard to pressure (zero at the reference, additive over adjacent intervals, negative below the reference)", quad_limits, [HU], "STRUCT", replay_routes))
 
     def run_table(dry="wet gas"):
